@@ -38,6 +38,7 @@ GROUPS = {
 def plan(tier, seed):
     shards = [("group", g) for g in GROUPS] + [("uniq_u", g) for g in GROUPS] + [("uniq_hkl", g) for g in GROUPS]
     shards.append(("alias",))
+    shards += [("uniqlist", g) for g in GROUPS]
     names = list(GROUPS)
     for a in names:
         shards.append(("history", a, 2 if tier == "quick" else 3))
@@ -267,7 +268,53 @@ def _run_history(desc):
     return sh
 
 
+def _run_uniqlist(desc):
+    """grid_index_parallel.uniq_grain_list (the collector that recognises a grain found again in a symmetry-equivalent setting): every
+    insertion order of a 6-element set {g, two other settings of g, a grain misoriented by 7 degrees, another setting of that one, g at
+    a distant position}; after every insertion the collector holds exactly one entry per (position, symmetry orbit) class seen so far"""
+    _, name = desc
+    from ImageD11 import sym_u, grain, grid_index_parallel as gip
+    import io, contextlib
+    sh = Shard()
+    ops = [np.asarray(o, float) for o in getattr(sym_u, name)().group]
+    for cell, ubi in _ubis(name, seed_of())[:3]:
+        ubi2 = np.dot(ubi, O.rotation_from_axis_angle((3, 1, -2), 7.0).T)
+        k1, k2 = len(ops) - 1, len(ops) // 2
+        t0, tfar = np.array([10.0, -20.0, 5.0]), np.array([10.0, 480.0, 5.0])
+        members = [(ubi, t0, "A"), (np.dot(ops[k1], ubi), t0 + 1.0, "A"), (np.dot(ops[k2], ubi), t0 - 1.0, "A"), (ubi2, t0, "B"),
+                   (np.dot(ops[k1], ubi2), t0 + 0.5, "B"), (np.dot(ops[k2], ubi), tfar, "C")]
+        for order in itertools.permutations(range(len(members))):
+            with contextlib.redirect_stdout(io.StringIO()):
+                ul = gip.uniq_grain_list(name, 10.0, 1.0)
+                seen = []
+                for pos, m in enumerate(order):
+                    u, t, cls = members[m]
+                    ul.add([grain.grain(u.copy(), translation=t.copy())])
+                    if cls not in seen:
+                        seen.append(cls)
+                    if len(ul.uniqgrains) != len(seen):
+                        sh.violation("%s:uniq_grain_list:entries-differ-from-distinct-grains" % name,
+                                     {"kind": "uniqlist", "group": name, "cell": cell, "order": list(order[:pos + 1])},
+                                     {"entries": len(ul.uniqgrains), "distinct_grains_added": len(seen)})
+                        break
+                else:
+                    if sum(g.nfound for g in ul.uniqgrains) != len(members):
+                        sh.violation("%s:uniq_grain_list:times-found-do-not-add-up" % name, {"kind": "uniqlist", "group": name, "cell": cell, "order": list(order)},
+                                     {"nfound": [int(g.nfound) for g in ul.uniqgrains]})
+            sh.evaluations += 1
+            sh.states += 1
+            if len(ops) > 1:
+                sh.nontrivial += 1
+            if sh.violations:
+                return sh
+    sh.outcomes.add((name, "uniqlist"))
+    sh.sample({"kind": "uniqlist", "group": name, "orders": 720}, limit=1)
+    return sh
+
+
 def run_shard(desc):
+    if desc[0] == "uniqlist":
+        return _run_uniqlist(desc)
     if desc[0] == "history":
         return _run_history(desc)
     return {"group": _run_group, "uniq_u": _run_uniq_u, "uniq_hkl": _run_uniq_hkl, "alias": _run_alias}[desc[0]](desc)
